@@ -13,6 +13,7 @@ import json
 import math
 
 from harness.common import Report, lean_stage, seeded
+from harness.props.extra_stage import ExtraLeanStage
 
 REGISTRY = dict(
     text=("PARTIAL. Lean 4 theorems for every qubit number, all parameters and vectors: adding a common offset theta to all "
@@ -25,7 +26,19 @@ REGISTRY = dict(
           "'negating all phases leaves results unchanged' is FALSE in general (kernel-checked instance; on the real back-ends "
           "occupations differ by O(1) for detuned drives with time-varying phase while both agree with an independent expm "
           "reference) - it holds when the phase is constant, which is checked; H depends on the register only through the "
-          "interaction matrix. Not proved: the ideal exp (only polynomials in H), register isometries and (de)serialisation "
+          "interaction matrix. Props/C29Exp.lean (audited on every run) adds the IDEAL propagator for complex matrices of any "
+          "size: exp_smul_conj (V W = 1 => exp(c V H W) = V exp(c H) W), run_conj / probabilities_invariant / energy_invariant "
+          "(any list of steps (H_k, t_k) conjugated by one diagonal unitary fixing psi_0 up to a phase: all |psi_s|^2 and energies "
+          "of exp(-i t_k H_k)-evolution unchanged), propagator_entrywise_conj / negation_is_time_reversal (exp(-it conj H) = "
+          "conj exp(+itH): negation = time reversal), negation_invariant_of_real_up_to_diagonal (sufficient condition: H_k real "
+          "up to one diagonal unitary, i.e. constant phase), exp_smul_of_mul_self_eq_one and negation_not_an_invariance (exactly "
+          "evaluated Hermitian 2x2 two-step instance: ground-state weight 4385/15625 vs 13985/15625). Props/C29ExpLink.lean "
+          "(audited on every run) bridges the two: C is a LawfulCx scalar, tree vectors over C are functions on a 2^n-element "
+          "index type, hamMatrix_shift transports phase_offset_is_conjugation to dense matrices (H(phi+theta) = D H(phi) D^dag), "
+          "hence ideal_results_invariant_under_phase_offset / ideal_energy_invariant_under_phase_offset (the modelled emu-sv "
+          "Hamiltonian, any qubit number, any steps: all |psi_s|^2 and energies of prod_k exp(-i t_k H_k)|g..g> are unchanged by "
+          "a common offset) and hamMatrix_neg / ideal_negation_is_time_reversal. Not proved: register "
+          "isometries and (de)serialisation "
           "(Pulser's computation: metamorphic checks through real pulser Registers/Sequences), emu-mps (validated end to end)."),
     note=("Trusted: Lean kernel + propext/Classical.choice/Quot.sound; Mathlib; Model.SvOps tied to the code by C06's "
           "correspondence; end-to-end equalities are differential tests with stated tolerances (1e-5 emu-sv, 2e-3 emu-mps at "
@@ -36,6 +49,10 @@ REGISTRY = dict(
 
 PROP_MODULE = "EmuVerif.Props.C29"
 AUDIT = "Audit/C29.lean"
+# ideal propagator exp(-itH): Props/C29Exp.lean (abstract matrices) and Props/C29ExpLink.lean (its instantiation at the modelled
+# emu-sv Hamiltonian; imports C29Exp). One stage on every run: building the bridge builds both, the forbidden-token grep follows the
+# import closure, and Audit/C29ExpLink.lean lists the theorems of BOTH modules (one Mathlib load; Audit/C29Exp.lean = C29Exp alone).
+EXTRA_STAGES = [("EmuVerif.Props.C29ExpLink", "Audit/C29ExpLink.lean")]
 TOL_H = 1e-12
 # calibrated on the clean tree (270 metamorphic pairs, seeds 0-2 + 3 extra streams): emu-sv pairs differ by <= 1.6e-7 (energy,
 # relative; occupations <= 2e-9) whatever krylov_tolerance is, emu-mps (precision 1e-10) by <= 4.4e-5, emu-mps vs expm <= 5e-5
@@ -382,7 +399,9 @@ def check(rep: Report, tier: str, seed: int) -> None:
                 "(DMM detuning map with distinct weights + a local channel) on one 11-12 atom register with shuffled int / string / "
                 "mixed-length ids and two small registers with non-sorted ids: original vs round trip vs relabelled, drive columns vs samples")
     rep.assumptions = [
-        "the ideal matrix exponential is not modelled: theorems are for every polynomial in H (what a truncated Taylor/Krylov step is)",
+        "Props/C29.lean: theorems for every polynomial in the modelled emu-sv H (what a truncated Taylor/Krylov step is); the ideal "
+        "matrix exponential is covered by Props/C29Exp.lean for abstract complex matrices H, H' = V H V^-1 and by "
+        "Props/C29ExpLink.lean for the modelled Hamiltonian (see EXTRA_STAGES)",
         "register isometries and (de)serialisation are Pulser's computation: metamorphic tests only",
         "the clause 'negating all phases' of the property is false in general (time reversal); checked only where it is an "
         "equivalence (constant phase); otherwise the run is compared with an independent scipy expm reference",
@@ -390,11 +409,17 @@ def check(rep: Report, tier: str, seed: int) -> None:
     t0 = time.time()
     lean_stage(rep, PROP_MODULE, AUDIT, thorough=(tier == "thorough"))
     rep.extra["t_lean_stage_s"] = round(time.time() - t0, 1)
+    extra = ExtraLeanStage(rep, EXTRA_STAGES, thorough=(tier == "thorough"))     # concurrent with the Python side
+    extra.start()
     quick = tier == "quick"
     ham_level(rep, seeded(seed * 7919 + 29), 60 if quick else 1000)
     e2e(rep, seeded(seed * 104729 + 29), 9 if quick else 150, True)
     pulser_meta(rep, seeded(seed * 1299709 + 29), 3 if quick else 40)
+<<<<<<< HEAD
     pulser_ids(rep, seeded(seed * 15485863 + 29), 3 if quick else 30)
+=======
+    extra.merge()
+>>>>>>> pkg/expconj
     rep.extra["t_total_s"] = round(time.time() - t0, 1)
     if rep.broken and not rep.failing:
         search(rep, seed, 30 if quick else 300)
